@@ -27,6 +27,7 @@ Tag::from_wire / add_field / a Cursor read; anything else is reported as a rejec
 LittleEndian; encode_framed writes magic, u32 LE length of the encoding, the encoding; request.rs compares buf[0..8] with the same magic constant,
 reads the length from buf[8..12] and parses buf[12..].  Every layout write of encode (count, offsets, tags, values) is control-dependent only on loop iteration and on the
 message's shape (len(tags), len(values)), never on the field data, and the offset loop does not run over all of self.values (the header has one offset fewer than values).
+The offsets written are computed from the lengths of self.values while encoding (no stored offset table that add_field maintains and a refused call can leave stale).
 """
 NOT_DECIDED = "equality with a reference decoder over all byte strings, round-trip and canonical re-encoding as value-level facts"
 TRUSTED = ["byteorder ReadBytesExt/WriteBytesExt", "std io::Cursor/Read", "derived PartialOrd on a field-less enum compares declaration indices"]
